@@ -75,7 +75,11 @@ func checkC17(c *Ctx) {
 	c.MustTLC(TLCOpts{Module: "ZapIO", Cfg: "ZapIO.check", Consts: map[string]string{"ResetOnFlush": "FALSE", "MaxLen": "4"}, ExpectViolation: true})
 
 	rng := rand.New(rand.NewSource(c.Seed))
-	alphabets := zapioAlphabets(rng, c.Pick(3, 8))
+	alphabets := zapioAlphabets(rng, c.Pick(6, 10))
+	// a line far longer than any plausible internal buffer limit (used on a fraction of the behaviours)
+	huge := map[string]string{"x": strings.Repeat("A", 70000), "y": strings.Repeat("b", 66000)}
+	long := map[string]string{"x": strings.Repeat("L", 5000), "y": strings.Repeat("m", 1100)}
+	nbeh := 0
 	// rotate which alphabets go first by seed so different seeds cover different members
 	rng.Shuffle(len(alphabets), func(i, j int) { alphabets[i], alphabets[j] = alphabets[j], alphabets[i] })
 
@@ -90,7 +94,18 @@ func checkC17(c *Ctx) {
 		if len(steps) > 2 {
 			c.Sample(steps)
 		}
-		for ai, al := range alphabets {
+		nbeh++
+		use := []map[string]string{alphabets[nbeh%len(alphabets)], alphabets[(nbeh+1)%len(alphabets)], alphabets[(nbeh+3)%len(alphabets)]}
+		if c.Thorough() {
+			use = alphabets
+		}
+		if nbeh%37 == 0 {
+			use = append(use, long)
+		}
+		if nbeh%1499 == 0 {
+			use = append(use, huge)
+		}
+		for ai, al := range use {
 			if bad, key, what := replayZapio(steps, al); bad {
 				// reproduce once more before reporting
 				if strings.HasPrefix(key, "HARNESS/") {
@@ -165,13 +180,16 @@ func replayZapio(steps []zapioStep, al map[string]string) (bad bool, key, what s
 				return true, "C17/write-result", fmt.Sprintf("step %d Write(%q) returned (%d, %v), want (%d, nil)", i, p, n, err, len(p))
 			}
 			if enabled {
-				for _, b := range []byte(p) {
-					if b == '\n' {
-						want = append(want, cur)
-						cur = ""
-					} else {
-						cur += string([]byte{b})
+				rest := p
+				for {
+					i := strings.IndexByte(rest, '\n')
+					if i < 0 {
+						cur += rest
+						break
 					}
+					want = append(want, cur+rest[:i])
+					cur = ""
+					rest = rest[i+1:]
 				}
 			}
 		case "S", "C":
